@@ -292,6 +292,7 @@ def run(chk, replay=None):
     kernel_tie_leg(chk, "lef_parse3")     # LefParser::parse_layer_geometries / parse_via_shape / parse_via_layer_geometries / parse_obstructions / parse_port / parse_property_definitions = Lef/LefParse.v
     kernel_tie_leg(chk, "lef_parse_lib")  # LefParser::parse_pin, the whole function = parse_pin / pin_loop of Lef/LefParse.v
     kernel_tie_leg(chk, "lef_parse_macro")  # LefParser::parse_macro, the whole function = parse_macro / macro_loop of Lef/LefParse.v
+    kernel_tie_leg(chk, "lef_parse_via")    # LefParser::parse_via, the whole function = parse_via / gen_via_loop / fixed_via_layers_loop of Lef/LefParse.v
     chk.assumptions += [
         "rust_decimal's Decimal::from_str / Display / PartialEq are an external library: specified in Lef/LefDec.v from its source and validated by the correspondence",
         "std formatting (`write!`, Display of char and integers) and derive_builder `build()` are modelled by their documented behaviour",
